@@ -4,7 +4,8 @@
 //! planted in / removed from the cache directory between operations.
 //!   c19 hist <step>;<step>;…        (H = c cached handle | u uncached handle; t = 0..4; cb = 0|1 cacheable flag)
 //!     w,H,t,id,cb,data   d,H,t,id,cb   r,H,t,id   p,H,t,id,cb,off,len   l,H,t
-//!     s,path,data  plant a file in the cache dir     x,path  delete a file of the cache dir
+//!     s,path,data  plant a file in the cache dir     x,path  delete a file / symlink of the cache dir
+//!     m,path  plant a DIRECTORY (mkdir -p)     k,path  plant a DANGLING SYMLINK     t,path,n  cut a regular file to its first n bytes
 //!     f  cache-dir layout      b  backend contents
 //! Direct oracles: a shadow `MemBackend` receives every operation uncached — the real store must always equal
 //! the shadow's; results through the cached handle must equal the shadow's whenever the file's type has been
@@ -52,6 +53,8 @@ fn layout(root: &Path) -> String {
                 walk(&e.path(), &r, out);
             } else if ft.is_file() {
                 out.push(format!("{r}:{}", e.metadata().map(|m| m.len()).unwrap_or(0)));
+            } else if ft.is_symlink() {
+                out.push(format!("{r}@"));
             }
         }
     }
@@ -148,6 +151,21 @@ fn hist(steps: &str) -> String {
                     Err(_) => "err".into(),
                 }
             }
+            ["k", path] => {
+                // a DANGLING SYMLINK planted in the cache dir; its target lies in a directory that does not exist, so nothing can be
+                // created through it either.  Never marks the cache dirty.
+                if !good_path(path) {
+                    return "bad-op".into();
+                }
+                let p = croot.join(path);
+                if let Some(par) = p.parent() {
+                    _ = std::fs::create_dir_all(par);
+                }
+                match std::os::unix::fs::symlink(tmp.path().join("void").join("x"), &p) {
+                    Ok(()) => "ok".into(),
+                    Err(_) => "err".into(),
+                }
+            }
             ["t", path, n] => {
                 // truncate a regular file of the cache dir to its first n bytes (no-op when it is shorter / not a file)
                 let Ok(n) = n.parse::<usize>() else { return "bad-op".into() };
@@ -197,12 +215,12 @@ fn hist(steps: &str) -> String {
                         };
                 }
                 if use_cache && *op == "w" {
-                    // a directory at the TEMP path blocks the cache write: an overwrite with other bytes (outside the
+                    // a directory / dangling symlink at the TEMP path blocks the cache write: an overwrite with other bytes (outside the
                     // statement: ids are content hashes) then leaves the old entry behind — not compared until the next listing
                     if let (Some(id), Some(data)) = (f.get(3).and_then(|s| id_of(s)), f.get(5).and_then(|s| data_of(s))) {
                         let hex_id = id.to_hex();
                         let tp = croot.join(t.dirname()).join(&hex_id[0..2]).join(format!("{}-tmp-", hex_id.as_str()));
-                        if tp.is_dir() && be.store().get(&(ft_idx(t), id)).is_some_and(|d| d[..] != data[..]) {
+                        if (tp.is_dir() || tp.is_symlink()) && be.store().get(&(ft_idx(t), id)).is_some_and(|d| d[..] != data[..]) {
                             dirty[ti] = true;
                         }
                     }
@@ -333,6 +351,12 @@ pub fn repo_level(seed: u64) -> String {
                                 _ = std::fs::create_dir(&f);
                             }
                         }
+                        4 => {
+                            // a dangling symlink in place of the entry
+                            if f.is_file() && std::fs::remove_file(&f).is_ok() {
+                                _ = std::os::unix::fs::symlink(tmp.path().join("void").join("x"), &f);
+                            }
+                        }
                         _ => {}
                     }
                 }
@@ -350,6 +374,10 @@ pub fn repo_level(seed: u64) -> String {
                     // a directory at the entry path of an id the repository does not (yet) have
                     let id2 = hex::encode(rng.bytes(32));
                     _ = std::fs::create_dir_all(root.join(t).join(&id2[..2]).join(&id2));
+                    // ... and a dangling symlink at another one
+                    let id3 = hex::encode(rng.bytes(32));
+                    _ = std::fs::create_dir_all(root.join(t).join(&id3[..2]));
+                    _ = std::os::unix::fs::symlink(tmp.path().join("void").join("x"), root.join(t).join(&id3[..2]).join(&id3));
                 }
             }
         }
@@ -512,9 +540,15 @@ pub fn generate(thorough: bool, rng: &mut Rng, ops: &mut Vec<String>, stats: &mu
             };
             if rng.chance(1, 6) {
                 // a directory where the entry of that file belongs (stays there for the rest of the history)
-                stats.hit("alt.dir-at-entry");
                 let dir = ["config", "index", "keys", "snapshots", "data"][rt as usize];
-                steps.push(format!("m,{dir}/{}/{rid}", &rid[..2]));
+                if rng.chance(2, 3) {
+                    stats.hit("alt.dir-at-entry");
+                    steps.push(format!("m,{dir}/{}/{rid}", &rid[..2]));
+                } else {
+                    // ... or a dangling symlink (gone with the next cache write / removal of that file)
+                    stats.hit("alt.link-at-entry");
+                    steps.push(format!("k,{dir}/{}/{rid}", &rid[..2]));
+                }
             }
             match rng.below(5) {
                 0 | 1 => {
@@ -645,7 +679,31 @@ pub fn generate(thorough: bool, rng: &mut Rng, ops: &mut Vec<String>, stats: &mu
                     let (t2, id, len) = known(rng, &written, &mut pool, t);
                     let dir = dirs[t2 as usize];
                     let proper = format!("{dir}/{}/{id}", &id[..2]);
-                    match rng.below(13) {
+                    match rng.below(16) {
+                        13 => {
+                            // a DANGLING SYMLINK at the proper entry path of a known id
+                            stats.hit("plant.link-at-entry");
+                            steps.push(format!("k,{proper}"));
+                        }
+                        14 => {
+                            if rng.chance(1, 2) {
+                                stats.hit("plant.link-at-fresh-entry");
+                                let id = fresh(rng, &mut pool);
+                                steps.push(format!("k,{dir}/{}/{id}", &id[..2]));
+                            } else {
+                                stats.hit("plant.link-at-tmp-path");
+                                steps.push(format!("k,{proper}-tmp-"));
+                            }
+                        }
+                        15 => {
+                            if rng.chance(1, 2) {
+                                stats.hit("plant.link-misplaced");
+                                steps.push(format!("k,{dir}/{id}"));
+                            } else {
+                                stats.hit("plant.link-below-entry");
+                                steps.push(format!("k,{proper}/sub"));
+                            }
+                        }
                         8 | 9 => {
                             // a DIRECTORY at the proper entry path of a known id (written, removed, or only read so far)
                             stats.hit("plant.dir-at-entry");
